@@ -28,6 +28,8 @@ pub struct FaultRates {
     pub send_error: u64,
     pub body_cut: u64,
     pub list_5xx: u64,
+    /// HTTP 404 on a listing (e.g. a bucket/endpoint hiccup): must not be taken for an empty directory
+    pub list_404: u64,
     /// latency range in ms (0 = none)
     pub latency_max_ms: u64,
     pub slow_body: bool,
@@ -476,7 +478,7 @@ impl RtWorld {
                     (0, _) => "send_error",
                     (1, true) => "list_5xx",
                     (1, false) => "status_5xx",
-                    (2, true) => "list_5xx",
+                    (2, true) => "list_404",
                     (2, false) => "transient_404",
                     (_, true) => "send_error",
                     (_, false) => "body_cut",
@@ -494,7 +496,7 @@ impl RtWorld {
         }
         let f = &self.faults;
         let table: [(&'static str, u64); 5] = if is_list {
-            [("list_5xx", f.list_5xx), ("send_error", f.send_error), ("", 0), ("", 0), ("", 0)]
+            [("list_5xx", f.list_5xx), ("send_error", f.send_error), ("list_404", f.list_404), ("", 0), ("", 0)]
         } else {
             [
                 ("transient_404", f.transient_404),
@@ -596,6 +598,7 @@ impl Backend for RtWorld {
                 if let Some(kind) = self.draw_fault(core, true, &akey) {
                     core.ctx.count(match kind {
                         "list_5xx" => "fault.list_5xx",
+                        "list_404" => "fault.list_404",
                         _ => "fault.send_error",
                     });
                     core.ctx.ev("fault", &[req.seq], || format!("{} on listing {}", kind, prefix));
@@ -608,6 +611,7 @@ impl Backend for RtWorld {
                     self.note_attempt(&akey, true, true);
                     return match kind {
                         "list_5xx" => s3sim::status_reply([500u16, 503][(req.seq % 2) as usize], None),
+                        "list_404" => s3sim::status_reply(404, None),
                         _ => Reply::SendError,
                     };
                 }
